@@ -8,7 +8,7 @@ Correspondence: each of the two runs against the Lean model of its strategy (`da
 """
 from __future__ import annotations
 
-from .c05 import C05, judge
+from .c05 import C05, gen_func_case, judge
 
 
 def same(df, ff, collect, max_errors):
@@ -38,19 +38,26 @@ class C06(C05):
     rule = ("the C05 stream (declarations of 1-4 fields from the Field parameter product x class/runtime Options x inputs over "
             "aliases, case variants, duplicates, extra keys), each case parsed once per strategy on the real code; non-trivial "
             "= the input uses an alias or case variant, gives a field twice, leaves a field out, hits a no_input/no_output/mode "
-            "rule, has an unknown key or active dependencies, or fails; distinct by the whole case")
+            "rule, has an unknown key or active dependencies, or fails; distinct by the whole case.  One sixth more cases declare "
+            "the same parameters on a keyword-only function (@utype.parse) and call it under both strategies (oracle only)")
     assumptions = C05.assumptions + [
         "function declarations (FunctionParser.parse_params: as_attname / excluded_keys) are outside the modelled fragment; "
-        "they share data_first_parse / field_first_parse with data classes",
+        "they share data_first_parse / field_first_parse with data classes and are covered by the oracle only: one sixth of "
+        "the stream are keyword-only functions with the same parameter declarations, called under both strategies",
     ]
+
+    def cases(self, tier, rng, n):
+        out = super().cases(tier, rng, n)
+        out += [gen_func_case(rng) for _ in range(max(1, n // 6))]
+        return out
 
     def spec(self, case, io, mo):
         if not isinstance(io, dict) or "out" not in io:
             return f"no outcome: {io}"
         if "config_error" in io["out"]:
             return None
-        want = self.want(case, io)
-        o = want["o"]
+        from .c05 import norm_opts
+        o = norm_opts(case["runtime"] if case.get("runtime") is not None else case["cls"].get("opts"))
         return same(io["df"], io["ff"], o["collect_errors"], o["max_errors"])
 
 
